@@ -137,6 +137,10 @@ fn add_route(sub: SubApp<()>, pat: &str, kind: &str, cors: &str) -> SubApp<()> {
             Response::new(StatusCode::OK, req.content.clone().unwrap_or_default())
         } else if k == "m" {
             Response::empty(StatusCode::OK)
+        } else if let Some(code) = k.strip_prefix('z') {
+            // a handler may answer a status that usually has no content WITH content: it is framed like any other response
+            let status = match code { "204" => StatusCode::NoContent, "304" => StatusCode::NotModified, "100" => StatusCode::Continue, _ => StatusCode::OK };
+            Response::new(status, format!("z{}", code))
         } else if let Some(which) = k.strip_prefix('h') {
             // handlers that set headers of their own, among them CORS headers the route is configured with as well: a header
             // the handler has set is kept, every OTHER configured CORS header must still be added
@@ -554,7 +558,17 @@ pub fn gen(out: &mut Out, thorough: bool, seed: u64) {
             }
         }
         routes.push(("/plain".into(), "i1".into(), "2".into()));
+        for code in ["204", "304", "100"] { routes.push((format!("/z{}", code), format!("z{}", code), "0".into())); }
         let hc = sub_spec("*", &routes, &[]);
+        for code in ["204", "304", "100"] {
+            for method in ["GET", "POST"] {
+                let body = if method == "POST" { "Content-Length: 2\r\n\r\nhi" } else { "\r\n" };
+                let one = format!("{} /z{} HTTP/1.1\r\nHost: a\r\nConnection: keep-alive\r\n{}", method, code, body).into_bytes();
+                let three = [one.clone(), one.clone(), b"GET /plain HTTP/1.1\r\nConnection: close\r\n\r\n".to_vec()].concat();
+                NREQ.with(|n| n.set(3));
+                emit_conn(out, &hc, false, &[format!("d{}", hex(&three))], ("127.0.0.1", 40000), &three, "handler-headers", true);
+            }
+        }
         for (ki, _) in kinds.iter().enumerate() {
             for preset in ["0", "1", "2", "3"] {
                 for method in ["GET", "OPTIONS", "POST"] {
